@@ -140,7 +140,7 @@ def answer (dev : Bool) (root : Node) : String :=
     | .ok c => showInfo c.info
     | .error e => "err:" ++ errName e
   let wf := if root.wf then "1" else "0"
-  let cert := if certify root then "1" else "0"
+  let cert := if certify dev root then "1" else "0"
   match compile dev root with
   | .error e => s!"out={errName e} cnt={cnt} wf={wf} cert={cert}"
   | .ok r =>
